@@ -133,11 +133,12 @@ ORACLE_ONLY = {}
 def params_line(ex):
     b = ex.get("backend", {})
     q = ex.get("bounded", {})
-    return "params drain=%d invalidBits=%d refreshAfterSample=%d catchAll=%d batchPct=%d reportFlush=%d keepUnreported=%d flushInvalid=%d replayCatch=%d follow=%d" % (
+    return "params drain=%d invalidBits=%d refreshAfterSample=%d catchAll=%d batchPct=%d reportFlush=%d keepUnreported=%d flushInvalid=%d replayCatch=%d follow=%d flushBeforeErase=%d" % (
         1 if q.get("drainPublish", True) else 0, b.get("invalidBits", 32), 1 if b.get("refreshAfterSample", True) else 0,
         1 if b.get("catchAllFormat", True) else 0, q.get("defaultPercent", 5), 1 if b.get("reportBeforeFlushCleanup", True) else 0,
         1 if b.get("cleanupKeepsUnreported", True) else 0, 0 if b.get("flushOnlyValidLoggers", False) else 1,
-        1 if b.get("replayCatchesPerEvent", True) else 0, 1 if b.get("unboundedReadFollowsEmptyBuffers", True) else 0)
+        1 if b.get("replayCatchesPerEvent", True) else 0, 1 if b.get("unboundedReadFollowsEmptyBuffers", True) else 0,
+        1 if b.get("flushBeforeLoggerErase", True) else 0)
 
 
 def run_script(hbin, name, lines, workdir):
